@@ -30,7 +30,7 @@ func init() {
 func runC12(c *Ctx) {
 	r := c.R
 	r.Rule("R12-poll", "every recursive search function polls for cancellation before doing anything else and does nothing on the cancelled path; each public Search returns ErrHalted (never a score) when the context is cancelled at exit", 3+2)
-	r.Rule("R12-balance", "the board is handed back as received: push/pop balance on all paths, including the cancelled ones, and the mate/stalemate verdict (which writes the game result) only where no move was pushed", 7)
+	r.Rule("R12-balance", "the board is handed back as received: push/pop balance on all paths, including the cancelled ones, and the mate/stalemate verdict (which writes the game result) only where no move was pushed; a take-back is the exact inverse of the push, the game result included", 7+18)
 	r.Rule("R12-nowrite", "on every path from a child evaluation to a transposition-table write there is a cancellation poll whose not-cancelled edge is taken: a halted search never stores a value computed from a cut-short child", 2)
 	r.Rule("R12-bound", "the interior table write happens with an exact bound only on paths on which the move loop ran to exhaustion", 1)
 	r.Rule("R12-quit", "Halt closes the quit channel; the controller derives the search context from it and passes that context to the root search; nested searches forward the same context", 3)
@@ -51,6 +51,13 @@ func runC12(c *Ctx) {
 		r.WithAlias("R03-negamax", "-", func() {
 			r.WithAlias("R03-terminal", "R12-balance", func() { c03Paths(c, m) })
 		})
+	})
+	// ... and a balanced push/pop really is the identity on what the board reports, the game result included:
+	// PopMove is the exact inverse of PushMove (rule of C08, re-decided here)
+	c.guard("R12-balance", func() {
+		if g := newGameModel(c, "R12-balance"); g != nil {
+			r.WithAlias("R08-inverse", "R12-balance", func() { c08Inverse(c, g) })
+		}
 	})
 	c.guard("R12-poll", func() { c12Paths(c, m, rec) })
 	c.guard("R12-quit", func() { c12Quit(c, m) })
